@@ -777,6 +777,38 @@ theorem history_meets_spec {C : Codec} {wc : WireCodec} (hCor : C.Correct) (hF :
       simp only [Bool.false_eq_true, if_false, stepMid, hsk, hresp, Bool.not_true]
       exact ih _ hW' hGr hU'
 
+/-! ### no state across requests -/
+
+/-- what the handlers see, exchange by exchange, along a history -/
+def historyViews (C : Codec) (ex : List Bytes) (steps : List Step) : List Views :=
+  steps.map fun s => mwViews s.skip C ex s.jar s.ks
+
+/-- THE REQUEST-SIDE VIEW IS A FUNCTION OF (configuration, that request's cookies) ONLY: whatever was
+    served before — in particular the genuine value of a cookie, decrypted successfully — what a handler
+    sees for a request is the same as on a fresh middleware. (The issued log enters the SPEC, never the
+    middleware: it keeps nothing between requests.) -/
+theorem request_view_stateless (C : Codec) (ex : List Bytes) (before₁ before₂ : List Step) (s : Step) :
+    (historyViews C ex (before₁ ++ [s])).getLast? = some (mwViews s.skip C ex s.jar s.ks) ∧
+    (historyViews C ex (before₁ ++ [s])).getLast? = (historyViews C ex (before₂ ++ [s])).getLast? := by
+  simp [historyViews]
+
+/-- the same for the whole handler: the views depend on the `Next` decision, the request's cookies and the
+    names looked up — not on the response side, the surroundings, or anything earlier -/
+theorem serve_views_depend_only_on_request (m : Mw) (x y : Exchange) (h1 : x.skip = y.skip)
+    (h2 : x.jar = y.jar) (h3 : x.ks = y.ks) : (serve m x).views = (serve m y).views := by
+  unfold serve
+  rw [h1, h2, h3]
+  cases y.skip <;> cases reqPanics m.decPanics m.except y.jar <;> simp
+
+/-- consequence: a value the Decryptor refuses is refused after ANY history — also right after the genuine
+    value it was derived from (same name, same nonce prefix, altered behind) was accepted -/
+theorem altered_after_genuine_is_refused (C : Codec) (ex : List Bytes) (before : List Step) (k r : Bytes)
+    (ks : List Bytes) (hk : isDisabled k ex = false) (hd : C.dec r = none) :
+    ((historyViews C ex (before ++ [{ jar := [(k, r)], ks := ks, cookies := [], nonces := [] }])).getLast?.map
+      (·.enum)) = some [(k, [])] := by
+  rw [(request_view_stateless C ex before [] _).1]
+  simp [mwViews, modelViews, decryptJar, rebuild, setArg, openValue, hk, hd]
+
 /-- the same for utils.go's pair, from the AES-GCM hypotheses -/
 theorem history_meets_spec_aesgcm {A : Aead} (hA : A.Correct) (hG : A.GcmShape) (key : Bytes)
     (ex : List Bytes) (steps : List Step) (hgood : GoodSteps steps)
@@ -1164,5 +1196,11 @@ def exSteps2 : List Step :=
    { jar := [(b "a", b "hi")], ks := [b "a"], cookies := exCookies, nonces := [List.replicate 12 5] }]
 
 example : historyViolation (stdCodec toyAead exKey) stdWire [b "csrf_"] [] exSteps2 = none := by decide
+
+-- the genuine value first, then the same text with a character changed behind the nonce: refused
+example : (historyViews (stdCodec (logAead exL) exKey) []
+    [{ jar := [(b "a", exWire)], ks := [], cookies := [], nonces := [] },
+     { jar := [(b "a", exWire.take 20 ++ [66] ++ exWire.drop 21)], ks := [], cookies := [], nonces := [] }]).map (·.enum)
+    = [[(b "a", b "v")], [(b "a", [])]] := by decide
 
 end C20
